@@ -409,7 +409,9 @@ func (s *clientSocket) close(reason Reason, err error) {
 	s.closeOnce.Do(func() {
 		s.debug.Log("Going to close the socket. It is not already closed. Reason", reason)
 		close(s.closeChan)
-		defer s.callbacks.OnClose(reason, err)
+		// Report the close before closing the transport: closing a WebSocket
+		// waits for the peer's close frame (for 5 seconds if the peer is gone).
+		s.callbacks.OnClose(reason, err)
 
 		if reason != ReasonTransportClose && reason != ReasonTransportError {
 			s.transportMu.RLock()
